@@ -46,6 +46,7 @@ inductive Kw
   | limit | offset | percent | row | rows | only | with | ties | as | comma | dot
   | join | inner | outer | left | right | full | cross | natural | on | using
   | union | except | intersect | all
+  | recursive | for_ | update
   deriving DecidableEq, Repr
 
 structure Table (α : Type) where
